@@ -20,7 +20,6 @@ import (
 	"github.com/bitcoin-sv/block-headers-service/transports/p2p/p2psync"
 	peerpkg "github.com/bitcoin-sv/block-headers-service/transports/p2p/peer"
 	"github.com/bitcoin-sv/block-headers-service/verifharness/lib"
-	"github.com/rs/zerolog"
 )
 
 func init() { runners["C15R"] = runC15Race }
@@ -39,7 +38,7 @@ func runC15Race(c *Ctx) error {
 	}
 	defer st.Close()
 	peers := make(map[*peerpkg.Peer]*peerpkg.SyncState)
-	log := zerolog.Nop()
+	log := lib.DiscardLog()
 	svc := service.NewServices(service.Dept{Repositories: st.Repo, Peers: peers, AdminToken: "x", Logger: &log, Config: st.Cfg})
 	sm, err := p2psync.New(&p2psync.Config{Logger: &log, PeerNotifier: nopNotifier{}, ChainParams: st.Cfg.P2P.GetNetParams(),
 		MaxPeers: 125, Services: svc, Checkpoints: config.Checkpoints}, peers)
